@@ -48,6 +48,12 @@ CLAIMED = {
    "Seeded search over hostile decoder inputs and consumer behaviours; oracles: no panic, every error IsMalformed, termination (step caps + wall-clock watchdog confirmed in a fresh process), allocation proxy, CCITT geometry cap, and no goroutine left durably blocked once the reader is closed or DecodeStream has failed (exact, via the synctest bubble).",
    "Allocation is bounded by a TotalAlloc proxy, not by instrumenting the allocator; CPU-only hangs rely on the watchdog; the DCT/JBIG2 geometry caps are too large to drain per run.",
    "DESIGN.md section 4 C08"),
+
+ "C18": ("exploration",
+   "deterministic simulation of caller threads: real library code in real goroutines inside a testing/synctest bubble, one runnable task at a time chosen from the tape by a seeded strategy (random, PCT, run-until-blocked, round robin) at AST-instrumented Lock/recv/close/pool sites and at the ReadAt/Getter/callback seams; porcupine linearizability check of the cache history against a sequential model plus invariants",
+   "Seeded search over interleavings at the cache protocol's synchronisation points with losing races forced rather than hoped for; oracles: sequential equivalence of Get/DecodeStream, identical Go value per (extractor, reference, type), linearizability of the Decode/DecodeExclusive/StoreOrLoadPair history (porcupine), exclusive-decode invariants (no overlap, one success, waiters do not re-run), scheduler-detected deadlock, pool discipline, transient I/O faults must not poison the cache, independent files must not interfere through package state.",
+   "The cooperative scheduler serialises everything, so data races between two yield points are invisible to it by construction (stated in the evidence); yield points are derived from the working tree by cmd/instr at check time (no hook committed to /repo), so moved or added lock sites are picked up automatically. Small schedule spaces are sampled, not enumerated.",
+   "DESIGN.md section 4 C18"),
 }
 
 PENDING = {}
@@ -95,7 +101,7 @@ def main():
     print("claimed:", sorted(CLAIMED), "n/a:", [x["property_id"] for x in na])
 
 PENDING = {p: "not claimed yet: the simulation harness for this property is still under construction (see DESIGN.md section 4); it is applicable and will be claimed once its check is sound on the unchanged tree" for p in
-           ["C04", "C05", "C11", "C15", "C16", "C18"]}
+           ["C04", "C05", "C11", "C15", "C16"]}
 
 if __name__ == "__main__":
     main()
